@@ -203,6 +203,42 @@ def case_block_boundary(rng, kind, cfg_len=8192):
     return "%s S0=%s ; %s" % (kind, sch, h.text())
 
 
+def case_batch_boundary(rng, kind, batch_rows=4096):
+    """the columnar read path (PullBatch) fills batches of mergeBatchMaxRows rows from several cursors: one series a
+    little longer than one or two batches, its rows spread over two or three parts (so that the heap merge, not the
+    single-block copy, fills the batches), a few points re-written with a greater version and other values around the
+    batch boundaries; every value must come back as written on both read paths"""
+    sch = "t.f0.a.s,t.f0.n.i,f.v.i,f.x.f"
+    sid = rng.choice([1, 2 ** 64 - 1])
+    n = batch_rows * rng.choice([1, 1, 2]) + rng.choice([-1, 0, 1, 2, 300])
+    t0 = rng.choice([0, -3000, 5])
+
+    def vals(i, salt):
+        return ["s%08x" % ((i + salt) * 2654435761 % 2 ** 32) if i % 3 else "s41", "i%d" % (i * 3 + salt), "i%d" % (i + salt),
+                "f%016x" % struct.unpack(">Q", struct.pack(">d", float((i + salt) % 64) + 0.5))[0]]
+    nparts = rng.choice([2, 3])
+    parts = [[] for _ in range(nparts)]
+    for i in range(n):
+        parts[rng.randrange(nparts) if rng.random() < 0.5 else i % nparts].append(Row(sid, t0 + i, 1, vals(i, 0)))
+    for b in range(batch_rows, n + 3, batch_rows):
+        for d in (-2, -1, 0, 1):
+            for p_ in (b + d, n - 1 - (b + d)):
+                if 0 <= p_ < n and rng.random() < 0.6:
+                    parts[rng.randrange(nparts)].append(Row(sid, t0 + p_, 2, vals(p_, 7)))
+    h = Hist(rng)
+    for rows in parts:
+        rows = list(rows)       # (a point re-written twice carries the same values: no version tie with different values)
+        rng.shuffle(rows)
+        h.batch(0, rows, kind=rng.choice(["b", "w"]))
+    h.query(0, [sid], t0 - 1, t0 + n + 1, "ta")
+    h.query(0, [sid], t0 - 1, t0 + n + 1, "td")
+    h.query(0, [sid], t0 + rng.choice([1, 2]), t0 + n + 1, "ta")
+    if rng.random() < 0.6:
+        h.flush(rng.sample(h.mem, rng.randint(1, len(h.mem))))
+        h.query(0, [sid], t0 - 1, t0 + n + 1, rng.choice(["ta", "td"]))
+    return "%s S0=%s ; %s" % (kind, sch, h.text())
+
+
 def case_size_boundary(rng, kind):
     """rows whose uncompressed size crosses 2 MiB inside one batch"""
     sch = "t.f0.a.b,f.v.i"
@@ -236,7 +272,7 @@ class C01(base.StoreSpec):
     lean_modules = ["Banyan.Props.C01", "Banyan.Tie.C01"]
     theorems = ["Banyan.C01." + t for t in [
         "varArray_roundtrip", "strArr_roundtrip", "chunks8_roundtrip", "tag_roundtrip", "field_roundtrip", "f10_empty_array_is_null",
-        "norm_exact", "column_codec_transparent", "memPart_content", "query_eq_resolve", "write_read_exact", "written_once_returned",
+        "norm_exact", "column_codec_transparent", "memPart_content", "query_eq_resolve", "write_read_exact", "written_once_returned", "written_once_returned_batch",
     ]] + ["Banyan.C02." + t for t in ["dedupBatch_spec", "version_wins_any_history"]] + [
         "Banyan.Tie.C01." + t for t in ["maxLen_tie", "maxSize_tie", "init_guard_tie", "delim_tie", "esc_tie", "value_shape_tie"]]
     lean_driver = "C01"
@@ -269,7 +305,10 @@ class C01(base.StoreSpec):
         out = []
         nblk = 6 if n < 5000 else 40
         nsize = 2 if n < 5000 else 8
-        for _ in range(n - nblk - nsize):
+        nbat = 4 if n < 5000 else 40
+        for _ in range(nbat):
+            out.append(case_batch_boundary(rng, "bat"))
+        for _ in range(n - nblk - nsize - nbat):
             r = rng.random()
             if r < 0.7:
                 out.append(case_exact(rng, "exact"))
